@@ -145,8 +145,6 @@ Fixpoint find3 (row : Z) (l : list (Z * Z * Z)) : Z * Z :=
   | (r, a, b) :: t => if r =? row then (a, b) else find3 row t
   end.
 
-Definition ykey2 (aidx year : Z) : Z := aidx * 1000000 + year.
-
 Section Gen.
 Variable fl : fflags.
 Variable env : fenv.
@@ -368,13 +366,15 @@ Definition det_field (x : actx) (lm : assoc Z) (k : nat) (d : drow) (lk : flink)
   | L_summary => bad
   end.
 
-(** (asset, year) -> row_index + 1 whenever the event's year differs from the previous fraction's *)
-Fixpoint ym_add (aidx : Z) (r : Z) (prev : Z) (l : list gl) (ym : assoc Z) : assoc Z :=
+(** __tax_sheet_year_2_row[(asset, year)] = row_index + 1 whenever the event's year differs from the previous
+    fraction's.  The dictionary is keyed by (asset, year) and the assets of one run are distinct dictionary
+    keys, so an entry written for another asset can never be looked up: modelled as one map year -> row per asset. *)
+Fixpoint ym_add (r : Z) (prev : Z) (l : list gl) (ym : assoc Z) : assoc Z :=
   match l with
   | [] => ym
   | g :: rest =>
     let y := g_year g in
-    ym_add aidx (r + 1) y rest (if y =? prev then ym else aset (ykey2 aidx y) (r + 1) ym)
+    ym_add (r + 1) y rest (if y =? prev then ym else aset y (r + 1) ym)
   end.
 
 Record tax_layout := { tl_gls : Z; tl_bal : Z; tl_tot : Z; tl_avg : Z; tl_det : Z; tl_end : Z }.
@@ -412,8 +412,8 @@ Definition tax_sheet (x : actx) (lm : assoc Z) : sheetw :=
      sw_cols := gen_full_max_columns;
      sw_writes := tax_writes x lm |}.
 
-Definition ym_after (x : actx) (ym : assoc Z) : assoc Z :=
-  ym_add (ac_idx x) (tl_det (tax_layout_of x)) 0 (cd_gls (ac_c x)) ym.
+Definition ym_of (x : actx) : assoc Z :=
+  ym_add (tl_det (tax_layout_of x)) 0 (cd_gls (ac_c x)) [].
 
 (** ----- Summary sheet lines of one asset *)
 Definition summary_field (x : actx) (ym : assoc Z) (k : nat) (y : yline) (lk : flink) (f : ffield) : payload :=
@@ -430,7 +430,7 @@ Definition summary_field (x : actx) (ym : assoc Z) (k : nat) (y : yline) (lk : f
     | _ => bad
     end in
   match lk with
-  | L_summary => match aget (ykey2 (ac_idx x) (y_year y)) ym with
+  | L_summary => match aget (y_year y) ym with
                  | Some r => PLink (tax_name (ac_name x)) r inner
                  | None => inner           (* only reached when the lookup is guarded *)
                  end
@@ -442,14 +442,14 @@ Definition summary_field (x : actx) (ym : assoc Z) (k : nat) (y : yline) (lk : f
 Definition summary_key_error (x : actx) (ym : assoc Z) : bool :=
   negb (ff_guarded fl) &&
   existsb (fun lf : fcol => match lf with (_, L_summary, _) => true | _ => false end) gen_full_cols_sum &&
-  existsb (fun y => negb (amem (ykey2 (ac_idx x) (y_year y)) ym)) (cd_yearly (ac_c x)).
+  existsb (fun y => negb (amem (y_year y) ym)) (cd_yearly (ac_c x)).
 
 Definition summary_writes (x : actx) (ym : assoc Z) (r : Z) : list cellw :=
   table_rows (fun _ => gen_full_cols_sum) (summary_field x ym) r 0 (cd_yearly (ac_c x)).
 
 (** ----- the whole run *)
 Record gstate := {
-  gs_lm : assoc Z; gs_ym : assoc Z;
+  gs_lm : assoc Z;
   gs_srow : Z; gs_scap : Z;                 (* next Summary row, current Summary capacity *)
   gs_sheets : list sheetw;                  (* asset sheets so far, in file order *)
   gs_sum : list cellw }.                    (* Summary writes so far *)
@@ -465,11 +465,11 @@ Definition gen_asset (x : actx) (st : gstate) : fres gstate :=
   let scap := gs_scap st + Z.of_nat (length (cd_yearly c)) in       (* append_rows(new_lines) *)
   if negb (sheet_ok io) then RIndexError else
   if negb (sheet_ok tx) then RIndexError else
-  let ym := ym_after x (gs_ym st) in
+  let ym := ym_of x in
   if summary_key_error x ym then RKeyError else
   let sw := summary_writes x ym (gs_srow st) in
   if negb (forallb (in_cap scap (fe_summary_cols env)) sw) then RIndexError else
-  ROk {| gs_lm := lm; gs_ym := ym; gs_srow := gs_srow st + Z.of_nat (length (cd_yearly c)); gs_scap := scap;
+  ROk {| gs_lm := lm; gs_srow := gs_srow st + Z.of_nat (length (cd_yearly c)); gs_scap := scap;
          gs_sheets := gs_sheets st ++ [io; tx]; gs_sum := gs_sum st ++ sw |}.
 
 Fixpoint gen_assets (aidx : Z) (l : list (rasset * computed)) (ex : list (assoc (str * str))) (st : gstate) : fres gstate :=
@@ -513,7 +513,7 @@ Definition full_report : fres (list sheetw) :=
       let '(hw, srow) := fill_header 0 gen_full_hdr_sum in
       if negb (forallb (in_cap (fe_summary_rows env) (fe_summary_cols env)) hw) then RIndexError else
       match gen_assets 0 acs (fe_extra env)
-              {| gs_lm := []; gs_ym := []; gs_srow := srow; gs_scap := fe_summary_rows env; gs_sheets := []; gs_sum := hw |} with
+              {| gs_lm := []; gs_srow := srow; gs_scap := fe_summary_rows env; gs_sheets := []; gs_sum := hw |} with
       | ROk st =>
         ROk ({| sw_name := tr gen_full_msg_legend; sw_rows := fe_legend_rows env; sw_cols := fe_legend_cols env; sw_writes := lw |}
              :: {| sw_name := tr gen_full_msg_summary; sw_rows := gs_scap st; sw_cols := fe_summary_cols env; sw_writes := gs_sum st |}
